@@ -10,7 +10,8 @@ RULE = ("centre sets: uniform random, jittered lattice, exactly square, exactly 
         "points, with / without the helper ring of add_voronoi_centers, max_distance from tight (median cell diameter) to "
         "infinite, coordinates scaled / offset. decisive = rounded corners of every kept region pairwise distinct and no "
         "region diameter within 1e-9 of the cut-off. distinct = (kind, centres, cells kept, helper ring, cut-off class); "
-        "non-trivial = at least one cell")
+        "non-trivial = at least one cell"
+        ' Added after the seeded rounds: centres 1e3..3e5 from the origin, a second lattice from the same elements.')
 MIN_DECISIVE = {"quick": 50, "thorough": 600}
 REQUIRED_COUNTERS = ["post:create_lattice", "cells:compared", "interning:checked"]
 REQUIRED_HIST = {"any": ["kind:square", "kind:hex", "kind:random", "kind:jitter"]}
